@@ -53,7 +53,7 @@ def generate(outdir, seed, n_samples=None, n_loci=None, multi_sample_bam=None, b
     rng = random.Random(seed)
     os.makedirs(outdir, exist_ok=True)
     n_contigs = rng.choice([1, 2, 3])
-    clen = 240
+    clen = 480
     contigs = ["CTG%d" % (i + 1) for i in range(n_contigs)]
     ref = {c: "".join(rng.choice(BASES) for _ in range(clen)) for c in contigs}
     fasta = os.path.join(outdir, "ref.fasta")
@@ -62,8 +62,8 @@ def generate(outdir, seed, n_samples=None, n_loci=None, multi_sample_bam=None, b
             f.write(">%s\n%s\n" % (c, ref[c]))
     pysam.faidx(fasta)
 
-    n_loci = n_loci or rng.choice([3, 4, 5, 6, 8])
-    n_samples = n_samples or rng.choice([3, 3, 4, 5])
+    n_loci = n_loci or rng.choice([3, 4, 5, 6, 8, 3, 4, 5, 6, 8, 1, 2, 14])
+    n_samples = n_samples or rng.choice([3, 3, 4, 5, 3, 3, 4, 5, 2, 6])
     samples = ["S%02d" % (i + 1) for i in range(n_samples)]
     ploidy = {s: rng.choice([2, 4, 4]) for s in samples}
     if rng.random() < 0.5:
